@@ -84,6 +84,7 @@ ASSUMPTIONS = [
 ]
 
 EPS32 = 2.0 ** -23
+_LMC_DIR = os.path.dirname(os.path.dirname(os.path.abspath(__file__)))
 NAN = float("nan")
 IDS = ["a", "b", "c", "d", "e"]
 IDNUM = {i: k for k, i in enumerate(IDS)}
@@ -115,7 +116,13 @@ QUICK_SAMPLER_MODELS = ["logistic_d2_s1_diag", "linear_d2_s1_diag", "shared_d2_s
 QUICK_MCMC_MODELS = ["logistic_d2_s1_diag", "joint_d2_s1_diag", "logistic_d2_s1_bernoulli"]
 QUICK_SCIPY_MODELS = ["logistic_d2_s1_diag", "joint_d1_s0_scalar"]
 THOROUGH_SCIPY_MODELS = ["logistic_d2_s1_diag", "joint_d1_s0_scalar", "linear_d2_s1_diag", "shared_d2_s1_diag", "logistic_d2_s1_bernoulli"]
-QUICK_NJOBS_MODELS = ["logistic_d2_s1_diag"]
+QUICK_NJOBS_MODELS = ["logistic_d2_s1_diag", "joint_d1_s0_scalar"]
+# n_jobs cohorts: the catalogue individuals have 2, 3, 1, 3, 2 visits with two features and 2, 2, 1, 3, 2 with one (a visit
+# whose only feature is missing is dropped): every order of (a, b, c) and of (c, d, e) realises, for each kind, every
+# ranking pattern of three numbers of visits (a dispatch by workload, by identifier, ... is then a non-trivial permutation,
+# 3-cycles included); the cohorts of 5 are the sorted one and a scrambled one (its sort by visits is a 4-cycle)
+NJOBS_TRIPLES = [list(p) for t in (("a", "b", "c"), ("c", "d", "e")) for p in itertools.permutations(t)]
+NJOBS_FIVES = [["a", "b", "c", "d", "e"], ["c", "a", "d", "e", "b"]]
 THOROUGH_NJOBS_MODELS = ["logistic_d2_s1_diag", "joint_d1_s0_scalar", "linear_d2_s1_diag"]
 
 
@@ -125,14 +132,16 @@ def bounds(tier):
                 "sampler": "ordered cohorts <= 3 of 4 individuals, same modifications, %d model kinds, 2 scripts of draws" % len(QUICK_SAMPLER_MODELS),
                 "mcmc": "mode/mean posterior, ordered cohorts <= 3 of 4, %d model kinds, 1 script" % len(QUICK_MCMC_MODELS),
                 "scipy": "ordered cohorts <= 2 of 4 individuals, %d model kinds, start points by individual + plain seeded call (non-joint)" % len(QUICK_SCIPY_MODELS),
-                "n_jobs": "{1, 2} on ordered cohorts <= 2 of 3 individuals + one cohort of 3, %d model kind" % len(QUICK_NJOBS_MODELS)}
+                "n_jobs": "{1, 2} on ordered cohorts <= 2 of 3 individuals + every order of the triples (a,b,c), (c,d,e) (every ranking pattern of the "
+                          "numbers of visits) + one scrambled cohort of 5, %d model kinds" % len(QUICK_NJOBS_MODELS)}
     return {"terms/sampler": "all 85 ordered cohorts of size <= 3 of 5 individuals, every non-empty proper subset x 3 modifications, all 12 model "
                              "kinds, sampler scripts {0, 1, 2, seed}",
             "mcmc": "mode/mean posterior, same cohorts and modifications, all 12 model kinds with script 0, %d of them also with script (seed or 2)"
                     % len(QUICK_MCMC_MODELS),
             "scipy": "ordered cohorts <= 3 of 5 individuals (cohorts of 3: complements of every focal member), %d model kinds, start points by individual; "
                      "plain seeded call on cohorts of 2 (non-joint) and, for the first kind, of 3" % len(THOROUGH_SCIPY_MODELS),
-            "n_jobs": "{1, 2, 3} on ordered cohorts <= 2 of 4 individuals + 8 cohorts of 3, %d model kinds" % len(THOROUGH_NJOBS_MODELS)}
+            "n_jobs": "{1, 2, 3} on ordered cohorts <= 2 of 4 individuals + every order of (a,b,c), (c,d,e) + 2 more triples + 2 cohorts of 5, "
+                      "%d model kinds" % len(THOROUGH_NJOBS_MODELS)}
 
 
 # ------------------------------------------------------------------------------------------
@@ -376,15 +385,24 @@ def exec_sampler(model, spec, ids, mods, script=0, **_):
         for s in range(N_SWEEPS):
             t_inv = 1.0 if s % 2 == 0 else 0.5
             for v in ivs:
-                n_u = env.n["u"]
+                n_u, n_z = env.n["u"], env.n["z"]
                 samplers[v].sample(st, temperature_inv=t_inv)
                 alpha, accepted = spied.pop(v)
                 _split_rows(ids, f"alpha[{s}][{v}]", alpha, out["per_id"])
                 _split_rows(ids, f"decision[{s}][{v}]", accepted.to(torch.bool), out["per_id"])
-                u = torch.tensor(env.calls("u")[n_u][3], dtype=torch.float32)
+                u_calls, z_calls = env.calls("u")[n_u:], env.calls("z")[n_z:]
+                # one uniform per individual and one block of normals per individual in every step: what makes an
+                # individual's stream of draws its own (observed here, judged in check_case)
+                if [c[2] for c in u_calls] != [(n,)] and "draw_problem" not in out:
+                    out["draw_problem"] = ("uniform", f"step {s} of '{v}' on cohort {ids}: uniform draws of shapes {[c[2] for c in u_calls]} "
+                                                      f"for {n} individuals (acceptance ratios {alpha.tolist()})")
+                if [c[2][:1] for c in z_calls] != [(n,)] and "draw_problem" not in out:
+                    out["draw_problem"] = ("normal", f"step {s} of '{v}' on cohort {ids}: normal draws of shapes {[c[2] for c in z_calls]}")
+                u = u_calls[0][3] if len(u_calls) == 1 and len(u_calls[0][3]) == n else None
                 for k, i in enumerate(ids):
                     out["decisions"][i] += "A" if bool(accepted[k]) else "R"
-                    out["u"][i].append((f"alpha[{s}][{v}]", float(u[k])))
+                    if u is not None:
+                        out["u"][i].append((f"alpha[{s}][{v}]", float(torch.tensor(u[k], dtype=torch.float32))))
             for v in ivs:
                 _split_rows(ids, f"value[{s}][{v}]", st[v], out["per_id"])
     for v in ivs:
@@ -463,12 +481,14 @@ class Runner:
             self.n_exec += 1
             try:
                 self.cache[key] = EXEC[self.part](self.model(), self.spec, list(ids), dict(mods), **self.kw)
-            except RuntimeError as e:
-                if str(e).startswith("harness:"):
-                    raise
-                self.cache[key] = {"exc": (type(e).__name__, str(e)[:300])}
-            except Exception as e:  # implementation failure on an accepted cohort
-                self.cache[key] = {"exc": (type(e).__name__, str(e)[:300])}
+            except Exception as e:
+                tb = e.__traceback__
+                while tb.tb_next is not None:
+                    tb = tb.tb_next
+                raised_in = os.path.abspath(tb.tb_frame.f_code.co_filename)
+                if str(e).startswith("harness:") or raised_in.startswith(_LMC_DIR):
+                    raise  # raised by the harness's own code: HARNESS-ERROR, never a violation
+                self.cache[key] = {"exc": (type(e).__name__, str(e)[:300])}  # implementation failure on an accepted cohort
         return self.cache[key]
 
 
@@ -615,6 +635,9 @@ def check_case(runner, ids, mods):
         probs.append((f"{call}|result keys are not the dataset's individuals in the dataset's order|", f"{out['order']} for cohort {ids}"))
         return probs, info
     probs += check_totals(part, kw, out)
+    if "draw_problem" in out:
+        kind, msg = out["draw_problem"]
+        probs.append((f"IndividualGibbsSampler.sample|draws consumed differ from one {kind} draw per individual and step|", msg))
 
     def versus(other_ids, other_mods, relation, who, exact, opt_std=None):
         other = runner.run(other_ids, other_mods)
@@ -793,10 +816,10 @@ def shards(tier, seed):
                                 "script": 0 if draws == "by-id" else int(seed), "tier": tier})
     for m in (THOROUGH_NJOBS_MODELS if thorough else QUICK_NJOBS_MODELS):
         if thorough:
-            cohorts = ordered_cohorts(IDS[:4], 2) + [list(p) for p in itertools.permutations(IDS[:3], 3)] + [["d", "b", "a"], ["c", "d", "e"]]
+            cohorts = ordered_cohorts(IDS[:4], 2) + NJOBS_TRIPLES + [["d", "b", "a"], ["e", "a", "b"]] + NJOBS_FIVES
             out.append({"part": "njobs", "model": m, "cohorts": cohorts, "n_jobs": [1, 2, 3], "tier": tier})
         else:
-            cohorts = ordered_cohorts(IDS[:3], 2) + [["c", "a", "b"]]
+            cohorts = ordered_cohorts(IDS[:3], 2) + NJOBS_TRIPLES + NJOBS_FIVES[1:]
             out.append({"part": "njobs", "model": m, "cohorts": cohorts, "n_jobs": [1, 2], "tier": tier})
     # one shard of every part first (the evidence samples are taken from the first shards), otherwise cheapest parts first
     first, seen = [], set()
